@@ -39,7 +39,11 @@
 //	u <op> v (two such numbers)                         u.toNat <op> v.toNat                failure: .badRange
 //	p.allocator, err = bitmap.NewIPv4Allocator(x, y)    the call `w.newAlloc <x> <y>`; p's allocator is made of x, y
 //	p.LeaseTime, err = time.ParseDuration(args[K])      the call `w.duration (args.getD K "")`; p's lease is its answer
-//	p.LeaseTime = p.LeaseTime.Round(time.Second)        p's lease is `keptLease <lease>`  (only after the parse succeeded)
+//	p.LeaseTime = p.LeaseTime.Round(time.Second)        p's lease is `goRoundSecond <lease>`  (only after the parse)
+//	p.LeaseTime <op> C [|| p.LeaseTime <op> C]          <lease> <op> <value of C> [∨ …]     failure: .leaseOutOfRange
+//	                                                    <lease> = the value p's lease has AT THIS PLACE; C: integer
+//	                                                    literals, time.Nanosecond … time.Hour, math.MaxUint32
+//	                                                    (= 4294967295), products — evaluated here, in ns
 //	err [:]= p.registerBackingDB(s)                     the call `w.register s`; p's database is the one of s
 //	p.Recordsv4, err = loadRecords(p.leasedb)           the call `w.loadOk` (only after a successful registerBackingDB)
 //	err != nil                                          <call> = false / = none; failure: .allocator / .badDuration /
@@ -66,6 +70,7 @@ import (
 	"go/ast"
 	"go/parser"
 	"go/token"
+	"math/big"
 	"os"
 	"path/filepath"
 	"strconv"
@@ -74,7 +79,7 @@ import (
 const rangeSetupSrc = "/repo/plugins/range/plugin.go"
 
 var p18pkgs = map[string]string{
-	"errors": "errors", "fmt": "fmt", "net": "net", "time": "time", "binary": "encoding/binary",
+	"errors": "errors", "fmt": "fmt", "net": "net", "time": "time", "binary": "encoding/binary", "math": "math",
 	"bitmap":  "github.com/coredhcp/coredhcp/plugins/allocators/bitmap",
 	"handler": "github.com/coredhcp/coredhcp/handler",
 	"plugins": "github.com/coredhcp/coredhcp/plugins",
@@ -83,7 +88,7 @@ var p18pkgs = map[string]string{
 
 // names of the package (other files) and builtins the vocabulary mentions: no local may take them
 var p18reserved = set("loadRecords", "verifSeen", "PluginState", "Record", "len", "nil", "true", "false", "string", "error",
-	"append", "cap", "make", "new", "panic", "copy", "delete", "int", "uint32")
+	"append", "cap", "make", "new", "panic", "copy", "delete", "int", "uint32", "int64", "uint64")
 
 var p18logLevels = set("Print", "Printf", "Println", "Info", "Infof", "Infoln", "Debug", "Debugf", "Debugln", "Warn", "Warnf",
 	"Warning", "Warningf", "Error", "Errorf", "Trace", "Tracef")
@@ -335,9 +340,18 @@ func (g *g18) pure(x ast.Expr, st s18) {
 		if _, ok := g.field(x, st); ok {
 			return
 		}
+		if _, ok := g.durConst(x, st); ok {
+			return
+		}
 	case *ast.CallExpr:
 		if a, ok := g.isLen(x, st); ok {
 			g.pure(a, st)
+			return
+		}
+		if id, ok := x.Fun.(*ast.Ident); ok && len(x.Args) == 1 && !x.Ellipsis.IsValid() && set("uint32", "uint64", "int", "int64")[id.Name] {
+			_, local := st.vars[id.Name]
+			g.must(!local && !g.pkgNames[id.Name], id, "`%s` is not the builtin type here", id.Name)
+			g.pure(x.Args[0], st)
 			return
 		}
 		if _, ok := g.to4(x, st); ok {
@@ -487,7 +501,7 @@ func (g *g18) simple(s ast.Stmt, st s18) (s18, bool) {
 		g.must(st.pending < 0, s, "the error of the previous call must be tested by the next statement")
 		f := g.fieldOK(s, st, "LeaseTime")
 		st = st.clone()
-		st.fields["LeaseTime"] = f18{a: "keptLease (" + f.a + ")", call: f.call}
+		st.fields["LeaseTime"] = f18{a: "goRoundSecond (" + f.a + ")", call: f.call}
 		return st, true
 	}
 	to, ok := a.Lhs[0].(*ast.Ident)
@@ -524,9 +538,23 @@ func (g *g18) simple(s ast.Stmt, st s18) (s18, bool) {
 // cond: the condition of an `if` ↦ (Lean Prop, the state where it holds, the state where it does not).
 func (g *g18) cond(x ast.Expr, st s18) (string, s18, s18) {
 	b, ok := g.unparen(x).(*ast.BinaryExpr)
-	g.must(ok, x, "unsupported condition (known: len(args) <op> K, s == \"\", x.To4() == nil, a comparison of two addresses as numbers, err != nil)")
+	g.must(ok, x, "unsupported condition (known: len(args) <op> K, s == \"\", x.To4() == nil, a comparison of two addresses as numbers, err != nil, the lease time against constants)")
 	pos, neg := st.clone(), st.clone()
 	pos.pending, neg.pending = -1, -1
+	// the lease time against constant durations: one comparison, or two joined by ||
+	if b.Op == token.LOR {
+		g.must(st.pending < 0, x, "the error of the call just made must be tested by the next statement")
+		l, ok1 := g.leaseCmp(b.X, st)
+		r, ok2 := g.leaseCmp(b.Y, st)
+		g.must(ok1 && ok2, b, "the only compound condition known is `p.LeaseTime <op> C || p.LeaseTime <op> C`, C constant durations")
+		pos.why = ".leaseOutOfRange"
+		return l + " ∨ " + r, pos, neg
+	}
+	if l, ok := g.leaseCmp(b, st); ok {
+		g.must(st.pending < 0, x, "the error of the call just made must be tested by the next statement")
+		pos.why = ".leaseOutOfRange"
+		return l, pos, neg
+	}
 	op, okOp := cmpOps[b.Op]
 	g.must(okOp, b, "unsupported operator %s in a condition", b.Op)
 	// err != nil
@@ -591,6 +619,66 @@ func (g *g18) cond(x ast.Expr, st s18) (string, s18, s18) {
 	}
 	g.fail(x, "unsupported condition (known: len(args) <op> K, s == \"\", x.To4() == nil, a comparison of two addresses as numbers, err != nil)")
 	return "", st, st
+}
+
+// durConst: x is a constant duration / integer ↦ its value (ns for a duration).  Known: integer literals, the unit
+// constants of package time, math.MaxUint32, products of these.
+func (g *g18) durConst(x ast.Expr, st s18) (*big.Int, bool) {
+	x = g.unparen(x)
+	switch x := x.(type) {
+	case *ast.BasicLit:
+		if x.Kind != token.INT {
+			return nil, false
+		}
+		v, ok := new(big.Int).SetString(x.Value, 0)
+		return v, ok
+	case *ast.SelectorExpr:
+		p, n, ok := g.pkgSel(x, st)
+		if !ok {
+			return nil, false
+		}
+		if p == "time" {
+			v, known := map[string]int64{"Nanosecond": 1, "Microsecond": 1000, "Millisecond": 1000000, "Second": 1000000000,
+				"Minute": 60000000000, "Hour": 3600000000000}[n]
+			g.must(known, x, "not a unit constant of package time")
+			return big.NewInt(v), true
+		}
+		if p == "math" {
+			g.must(n == "MaxUint32", x, "the only constant of package math that is known is MaxUint32 (= 4294967295)")
+			return big.NewInt(4294967295), true
+		}
+	case *ast.BinaryExpr:
+		if x.Op != token.MUL {
+			return nil, false
+		}
+		a, ok1 := g.durConst(x.X, st)
+		b, ok2 := g.durConst(x.Y, st)
+		if !ok1 || !ok2 {
+			return nil, false
+		}
+		v := new(big.Int).Mul(a, b)
+		g.must(v.IsInt64(), x, "the constant does not fit a time.Duration")
+		return v, true
+	}
+	return nil, false
+}
+
+// leaseCmp: x is `p.LeaseTime <op> <constant duration>` ↦ Lean Prop over the CURRENT value of the lease time.
+func (g *g18) leaseCmp(x ast.Expr, st s18) (string, bool) {
+	b, ok := g.unparen(x).(*ast.BinaryExpr)
+	if !ok {
+		return "", false
+	}
+	fl, ok := g.field(b.X, st)
+	if !ok || fl != "LeaseTime" {
+		return "", false
+	}
+	op, okOp := cmpOps[b.Op]
+	g.must(okOp, b, "unsupported operator %s in a condition", b.Op)
+	c, ok := g.durConst(b.Y, st)
+	g.must(ok, b.Y, "the lease time is compared with a constant duration (integer literals, the units of package time, math.MaxUint32, products)")
+	f := g.fieldOK(b.X, st, "LeaseTime")
+	return f.a + " " + op + " " + c.String(), true
 }
 
 // ------------------------------------------------------------------ results
@@ -866,7 +954,7 @@ as a big-endian number (none: nil); ` + "`w.newAlloc a b`" + ` = ` + "`bitmap.Ne
 ` + "`time.ParseDuration(s)`" + ` in ns (none: an error); ` + "`w.register f`" + ` = ` + "`p.registerBackingDB(f)`" + ` returned nil; ` + "`w.loadOk`" + ` =
 ` + "`loadRecords(p.leasedb)`" + ` returned no error; ` + "`w.remarkOk`" + ` = the loop over ` + "`p.Recordsv4`" + ` ran through.
 ` + "`args.getD k \"\"`" + ` = ` + "`args[k]`" + `, emitted only where the tests passed imply ` + "`len(args) > k`" + `; ` + "`(x).getD 0#32`" + ` =
-` + "`binary.BigEndian.Uint32(x.To4())`" + `, emitted only where ` + "`x.To4() != nil`" + ` is established; ` + "`keptLease d`" + ` = ` + "`d.Round(time.Second)`" + `.
+` + "`binary.BigEndian.Uint32(x.To4())`" + `, emitted only where ` + "`x.To4() != nil`" + ` is established; ` + "`goRoundSecond d`" + ` = ` + "`d.Round(time.Second)`" + `.
 ` + "`⟨h, e⟩`" + ` = the pair returned: h = none for nil, ` + "`some ⟨file, start, stop, lease⟩`" + ` for ` + "`p.Handler4`" + ` of the state whose database,
 allocator and lease time were set from these values; e = none for nil, ` + "`some <the test that failed>`" + ` for an error.
 Log statements ↦ nothing (arguments checked). -/
